@@ -6,6 +6,7 @@ import (
 	"go/token"
 	"go/types"
 	"golang.org/x/tools/go/cfg"
+	"sort"
 	"strings"
 )
 
@@ -720,29 +721,25 @@ func checkSetArithmetic(r *Reporter, p *Prog) {
 	if fd := p.FuncDecl(pkg, "setArithmetic", "elementsCollector"); fd == nil {
 		r.Unresolved("arith/threshold", "ds.setArithmetic.elementsCollector", "method not found")
 	} else {
-		// resolved through temporaries (also those hoisted out of the closures):
-		//  step      the count function returns currentValue + Cond(increase, 1, -1)
-		//  threshold targetSet.Add only where the new count == Cond(increase, threshold, threshold-1)
+		// judged per direction (increase = true / false), with temporaries - also those hoisted out
+		// of the closures - and lo.Cond evaluated under that assumption:
+		//  step      the count function returns <current> + 1  /  <current> + -1
+		//  threshold targetSet.Add only where the new count == threshold  /  threshold-1
 		//  opposing  ... and where opposingSet.Delete(element) reported false
 		src := ""
-		var okStep, okThr, okOpp, addsTarget bool
-		var elemLit *ast.FuncLit
+		okStep, okThr, okOpp, addsTarget := true, true, false, false
+		outer := newFuncCFG(p, info, fd.Body, "elementsCollector")
+		// the point where the collector closure is created (its captured variables have their final values)
+		var creation Point
+		for _, pt := range outer.Find(func(n ast.Node) bool { _, ok := n.(*ast.ReturnStmt); return ok }) {
+			creation = pt
+		}
+		var elemLit, countLit *ast.FuncLit
 		ast.Inspect(fd.Body, func(n ast.Node) bool {
 			if lit, ok := n.(*ast.FuncLit); ok {
 				switch lit.Type.Params.NumFields() {
 				case 2:
-					lf := newFuncCFG(p, info, lit.Body, "count")
-					for _, b := range lf.G.Blocks {
-						for i, nd := range b.Nodes {
-							if rs, ok := nd.(*ast.ReturnStmt); ok && len(rs.Results) == 1 && b.Live {
-								k := lf.KeyAt(rs.Results[0], Point{b, i})
-								src += " step=" + k
-								if k == "(currentValue+lo.Cond(increase,1,-1))" || k == "(lo.Cond(increase,1,-1)+currentValue)" {
-									okStep = true
-								}
-							}
-						}
-					}
+					countLit = lit
 				case 1:
 					if elemLit == nil {
 						elemLit = lit
@@ -751,34 +748,109 @@ func checkSetArithmetic(r *Reporter, p *Prog) {
 			}
 			return true
 		})
-		if elemLit != nil {
+		// value of an expression of a closure under a direction: closure-local parts are resolved in
+		// the closure, captured variables in the enclosing function at the creation point
+		valuesIn := func(lf *FuncCFG, e ast.Expr, pt Point, assign map[string]bool) []string {
+			re, rpt := lf.Resolve(e, pt)
+			set := map[string]bool{}
+			var rec func(x ast.Expr, depth int) []string
+			rec = func(x ast.Expr, depth int) []string {
+				x = ast.Unparen(x)
+				switch y := x.(type) {
+				case *ast.BinaryExpr:
+					var out []string
+					for _, a := range rec(y.X, depth) {
+						for _, b := range rec(y.Y, depth) {
+							out = append(out, "("+a+y.Op.String()+b+")")
+						}
+					}
+					return out
+				case *ast.Ident:
+					if v, isVar := info.Uses[y].(*types.Var); isVar && (v.Pos() < lf.Body.Pos() || v.Pos() > lf.Body.End()) {
+						return outer.ValuesUnder(y, creation, assign) // captured
+					}
+				}
+				return lf.ValuesUnder(x, rpt, assign)
+			}
+			for _, v := range rec(re, 4) {
+				set[v] = true
+			}
+			var out []string
+			for k := range set {
+				out = append(out, k)
+			}
+			sort.Strings(out)
+			return out
+		}
+		if countLit == nil || elemLit == nil {
+			okStep, okThr = false, false
+		} else {
+			cf := newFuncCFG(p, info, countLit.Body, "count")
+			cur := countLit.Type.Params.List[0].Names[0].Name
 			ef := newFuncCFG(p, info, elemLit.Body, "collect")
 			adds := ef.Find(func(n ast.Node) bool {
 				c, ok := n.(*ast.CallExpr)
 				return ok && exprKey(c.Fun) == "targetSet.Add"
 			})
 			addsTarget = len(adds) > 0
-			crossing := ef.RelEdgesAt(func(rel Rel) bool {
-				if rel.Op != "==" {
-					return false
-				}
-				want := "lo.Cond(increase,threshold,(threshold-1))"
-				other := rel.L
-				if rel.L == want {
-					other = rel.R
-				} else if rel.R != want {
-					return false
-				}
-				return strings.Contains(other, ".Compute(element,")
-			})
 			_, notDeleted := ef.CondEdges(func(e ast.Expr) bool { return exprKey(e) == "opposingSet.Delete(element)" })
-			okThr, okOpp = len(crossing) > 0, len(notDeleted) > 0
+			okOpp = len(notDeleted) > 0
 			for _, a := range adds {
-				if _, only := ef.OnlyThroughEdges(a, crossing); !only {
-					okThr = false
-				}
 				if _, only := ef.OnlyThroughEdges(a, notDeleted); !only {
 					okOpp = false
+				}
+			}
+			for _, dir := range []bool{true, false} {
+				assign := map[string]bool{"increase": dir}
+				wantStep := map[bool][]string{true: {"(" + cur + "+1)", "(1+" + cur + ")"}, false: {"(" + cur + "+-1)", "(-1+" + cur + ")", "(" + cur + "-1)"}}[dir]
+				wantThr := map[bool]string{true: "threshold", false: "(threshold-1)"}[dir]
+				// step
+				for _, b := range cf.G.Blocks {
+					for i, nd := range b.Nodes {
+						if rs, ok := nd.(*ast.ReturnStmt); ok && len(rs.Results) == 1 && b.Live {
+							vals := valuesIn(cf, rs.Results[0], Point{b, i}, assign)
+							src += fmt.Sprintf(" step[increase=%v]=%v", dir, vals)
+							ok := len(vals) == 1
+							if ok {
+								ok = false
+								for _, w := range wantStep {
+									if vals[0] == w {
+										ok = true
+									}
+								}
+							}
+							if !ok {
+								okStep = false
+							}
+						}
+					}
+				}
+				// threshold: the Add is dominated by an equality of the Compute result with the crossing value
+				var crossing []Edge
+				ef.forEachEdgeFact(func(e Edge, b *cfg.Block, ft fact) {
+					be, isBin := ast.Unparen(ft.Atom).(*ast.BinaryExpr)
+					if !isBin || !((be.Op == token.EQL && ft.Pol) || (be.Op == token.NEQ && !ft.Pol)) {
+						return
+					}
+					pt := Point{b, len(b.Nodes) - 1}
+					for _, sides := range [][2]ast.Expr{{be.X, be.Y}, {be.Y, be.X}} {
+						if !strings.Contains(ef.KeyAt(sides[0], pt), ".Compute(element,") {
+							continue
+						}
+						vals := valuesIn(ef, sides[1], pt, assign)
+						src += fmt.Sprintf(" crossing[increase=%v]=%v", dir, vals)
+						if len(vals) == 1 && vals[0] == wantThr {
+							crossing = append(crossing, e)
+						}
+					}
+				})
+				if len(crossing) == 0 {
+					okThr = false
+				}
+				for _, a := range adds {
+					if _, only := ef.OnlyThroughEdges(a, crossing); !only {
+						okThr = false
+					}
 				}
 			}
 		}
